@@ -300,7 +300,11 @@ class Model:
         return done
 
     def _scan_module(self, m: ModuleInfo) -> None:
-        for node in m.tree.body:
+        # imports made for the type checker only (`if t.TYPE_CHECKING: from ._messages import PackingOptions`) name what the annotations
+        # of this module mean: they resolve like any other import (nothing here runs code, so the cycle they avoid does not exist)
+        tc_imports = [x for node in m.tree.body if isinstance(node, ast.If) and "TYPE_CHECKING" in ast.unparse(node.test) for x in node.body
+                      if isinstance(x, (ast.Import, ast.ImportFrom))]
+        for node in list(m.tree.body) + tc_imports:
             if isinstance(node, ast.Import):
                 for a in node.names:
                     m.imports[a.asname or a.name.split(".")[0]] = a.name if a.asname else a.name.split(".")[0]
